@@ -1,11 +1,205 @@
-import JP.Driver
-import JP.Props.C06spec
-import JP.Impl.Den
+import JP.Lemmas.Equal
+import JP.Lemmas.EqualEquiv
 
-/-! # Property C06 — theorems (see DESIGN.md §6) -/
+/-!
+# C06 — `Equal` decides structural equality
+
+Go (`lazyNode.equal`) compares two objects by "map sizes equal and every entry of the left has
+an equal partner on the right"; `Value.eqv` is two-sided inclusion.  For duplicate-free member
+names the two agree (pigeonhole, `Value.pigeon`).
+
+`LitsOk`: the task suggested a side condition on literals (`eqCC` compares literal bytes, `eqv`
+compares `litValue`s).  It is not needed: `Cst.litValue` is injective on all byte strings
+(`JP.litValue_inj`), because a literal that is not one of the three words maps to `.num` of
+itself.  `LitsOk` is therefore defined as `True` and the theorems are stated without it.
+-/
 
 namespace JP
 namespace C06
+open Value
+
+/-- no side condition on literals is required (see the module comment) -/
+def LitsOk (_ : Cst) : Prop := True
+
+/-- equality of two raw messages = structural equality of the values they denote
+(member names duplicate-free, hereditarily, on both sides) -/
+theorem eqCC_iff (a b : Cst) (ha : a.valueOf.noDup = true) (hb : b.valueOf.noDup = true) :
+    Impl.eqCC a b = Value.eqv a.valueOf b.valueOf :=
+  Impl.eqCC_eqv a b ha hb
+
+/-- the same with the (vacuous) literal side conditions as explicit arguments -/
+theorem eqCC_iff_lits (a b : Cst) (ha : a.valueOf.noDup = true) (hb : b.valueOf.noDup = true)
+    (_hla : LitsOk a) (_hlb : LitsOk b) : Impl.eqCC a b = Value.eqv a.valueOf b.valueOf :=
+  Impl.eqCC_eqv a b ha hb
+
+/-- a (possibly parsed) node against a raw message, general form: nil children and null
+literals included -/
+theorem eqNC_iff' (n : Impl.Node) (c : Cst) (hn : Impl.WF n = true) (hc : c.valueOf.noDup = true) :
+    Impl.eqNC n c = Value.eqv (Impl.den n) c.valueOf :=
+  Impl.eqNC_eqv n c hn hc
+
+/-- the statement in the shape used as `EqSpec` (the two nullness hypotheses are not needed) -/
+theorem eqNC_iff (n : Impl.Node) (c : Cst) : Impl.WF n = true → c.valueOf.noDup = true →
+    Impl.isNullN n = false → c.isNullLit = false →
+    Impl.eqNC n c = Value.eqv (Impl.den n) c.valueOf :=
+  fun hn hc _ _ => Impl.eqNC_eqv n c hn hc
+
+/-- the version with the (vacuous) literal side conditions spelled out -/
+theorem eqNC_iff_lits (n : Impl.Node) (c : Cst) : Impl.WF n = true → c.valueOf.noDup = true →
+    LitsOk c → Impl.isNullN n = false → c.isNullLit = false →
+    Impl.eqNC n c = Value.eqv (Impl.den n) c.valueOf :=
+  fun hn hc _ _ _ => Impl.eqNC_eqv n c hn hc
+
+/-- `Equal` on texts, given that scanner and reference parser agree on the two texts -/
+theorem equal_iff (a b : Bytes) (hva : Scanner.valid a = (parseCst a).isSome)
+    (hvb : Scanner.valid b = (parseCst b).isSome) :
+    Impl.equal a b = true ↔
+      ∃ ca cb, parseCst a = some ca ∧ parseCst b = some cb ∧ Impl.eqCC ca cb = true := by
+  unfold Impl.equal
+  rw [hva, hvb]
+  cases parseCst a with
+  | none => simp
+  | some ca =>
+    cases parseCst b with
+    | none => simp
+    | some cb => simp
+
+/-- a malformed operand makes `Equal` false (whatever the scanner says) -/
+theorem malformed_false (a b : Bytes) (h : parseCst a = none ∨ parseCst b = none) :
+    Impl.equal a b = false := by
+  unfold Impl.equal
+  cases h with
+  | inl h => rw [h]; split <;> rfl
+  | inr h =>
+    rw [h]
+    split
+    · rfl
+    · cases parseCst a <;> rfl
+
+/-- `Equal` = structural equality of the denoted values, for well-formed duplicate-free texts -/
+theorem equal_spec (a b : Bytes) (hva : Scanner.valid a = (parseCst a).isSome)
+    (hvb : Scanner.valid b = (parseCst b).isSome)
+    (hda : ∀ va, parseValueOf a = some va → va.noDup = true)
+    (hdb : ∀ vb, parseValueOf b = some vb → vb.noDup = true) :
+    Impl.equal a b = true ↔
+      ∃ va vb, parseValueOf a = some va ∧ parseValueOf b = some vb ∧ Value.eqv va vb = true := by
+  rw [equal_iff a b hva hvb]
+  unfold parseValueOf at *
+  constructor
+  · intro ⟨ca, cb, h1, h2, h3⟩
+    refine ⟨ca.valueOf, cb.valueOf, by simp [h1], by simp [h2], ?_⟩
+    rw [← eqCC_iff ca cb (hda _ (by simp [h1])) (hdb _ (by simp [h2]))]
+    exact h3
+  · intro ⟨va, vb, h1, h2, h3⟩
+    cases hpa : parseCst a with
+    | none => simp [hpa] at h1
+    | some ca =>
+      cases hpb : parseCst b with
+      | none => simp [hpb] at h2
+      | some cb =>
+        simp only [hpa, hpb, Option.map_some, Option.some.injEq] at h1 h2 hda hdb
+        subst h1; subst h2
+        exact ⟨ca, cb, rfl, rfl, by rw [eqCC_iff ca cb (hda _ rfl) (hdb _ rfl)]; exact h3⟩
+
+/-- symmetry of `Equal`, from symmetry of `eqv` on duplicate-free values (proved elsewhere) -/
+theorem equal_symm
+    (eqv_symm : ∀ x y : Value, x.noDup = true → y.noDup = true → Value.eqv x y = Value.eqv y x)
+    (a b : Bytes) (hva : Scanner.valid a = (parseCst a).isSome)
+    (hvb : Scanner.valid b = (parseCst b).isSome)
+    (hda : ∀ va, parseValueOf a = some va → va.noDup = true)
+    (hdb : ∀ vb, parseValueOf b = some vb → vb.noDup = true) :
+    Impl.equal a b = Impl.equal b a := by
+  have h1 := equal_spec a b hva hvb hda hdb
+  have h2 := equal_spec b a hvb hva hdb hda
+  have : Impl.equal a b = true ↔ Impl.equal b a = true := by
+    rw [h1, h2]
+    constructor
+    · intro ⟨va, vb, p, q, r⟩
+      exact ⟨vb, va, q, p, by rw [eqv_symm vb va (hdb _ q) (hda _ p)]; exact r⟩
+    · intro ⟨vb, va, q, p, r⟩
+      exact ⟨va, vb, p, q, by rw [eqv_symm va vb (hda _ p) (hdb _ q)]; exact r⟩
+  cases h : Impl.equal a b <;> cases h' : Impl.equal b a <;> simp_all
+
+/-- transitivity of `Equal`, from transitivity of `eqv` on duplicate-free values -/
+theorem equal_trans
+    (eqv_trans : ∀ x y z : Value, x.noDup = true → y.noDup = true → z.noDup = true →
+      Value.eqv x y = true → Value.eqv y z = true → Value.eqv x z = true)
+    (a b c : Bytes) (hva : Scanner.valid a = (parseCst a).isSome)
+    (hvb : Scanner.valid b = (parseCst b).isSome) (hvc : Scanner.valid c = (parseCst c).isSome)
+    (hda : ∀ v, parseValueOf a = some v → v.noDup = true)
+    (hdb : ∀ v, parseValueOf b = some v → v.noDup = true)
+    (hdc : ∀ v, parseValueOf c = some v → v.noDup = true)
+    (hab : Impl.equal a b = true) (hbc : Impl.equal b c = true) : Impl.equal a c = true := by
+  obtain ⟨va, vb, p, q, r⟩ := (equal_spec a b hva hvb hda hdb).mp hab
+  obtain ⟨vb', vc, q', s, t⟩ := (equal_spec b c hvb hvc hdb hdc).mp hbc
+  rw [q] at q'; cases q'
+  exact (equal_spec a c hva hvc hda hdc).mpr
+    ⟨va, vc, p, s, eqv_trans va vb vc (hda _ p) (hdb _ q) (hdc _ s) r t⟩
+
+/-! ### `Equal` is an equivalence on well-formed duplicate-free texts (unconditional forms) -/
+
+theorem eqCC_symm (a b : Cst) (ha : a.valueOf.noDup = true) (hb : b.valueOf.noDup = true) :
+    Impl.eqCC a b = Impl.eqCC b a := by
+  rw [eqCC_iff a b ha hb, eqCC_iff b a hb ha, Value.eqv_symm _ _ ha hb]
+
+theorem eqCC_refl (a : Cst) (ha : a.valueOf.noDup = true) : Impl.eqCC a a = true := by
+  rw [eqCC_iff a a ha ha]; exact Value.eqv_refl _ ha
+
+theorem eqCC_trans (a b c : Cst) (ha : a.valueOf.noDup = true) (hb : b.valueOf.noDup = true)
+    (hc : c.valueOf.noDup = true) (h1 : Impl.eqCC a b = true) (h2 : Impl.eqCC b c = true) :
+    Impl.eqCC a c = true := by
+  rw [eqCC_iff _ _ ha hb] at h1
+  rw [eqCC_iff _ _ hb hc] at h2
+  rw [eqCC_iff _ _ ha hc]
+  exact Value.eqv_trans _ _ _ h1 h2
+
+theorem equal_symm' (a b : Bytes) (hva : Scanner.valid a = (parseCst a).isSome)
+    (hvb : Scanner.valid b = (parseCst b).isSome)
+    (hda : ∀ va, parseValueOf a = some va → va.noDup = true)
+    (hdb : ∀ vb, parseValueOf b = some vb → vb.noDup = true) :
+    Impl.equal a b = Impl.equal b a :=
+  equal_symm Value.eqv_symm a b hva hvb hda hdb
+
+theorem equal_trans' (a b c : Bytes) (hva : Scanner.valid a = (parseCst a).isSome)
+    (hvb : Scanner.valid b = (parseCst b).isSome) (hvc : Scanner.valid c = (parseCst c).isSome)
+    (hda : ∀ v, parseValueOf a = some v → v.noDup = true)
+    (hdb : ∀ v, parseValueOf b = some v → v.noDup = true)
+    (hdc : ∀ v, parseValueOf c = some v → v.noDup = true)
+    (hab : Impl.equal a b = true) (hbc : Impl.equal b c = true) : Impl.equal a c = true :=
+  equal_trans (fun x y z _ _ _ => Value.eqv_trans x y z) a b c hva hvb hvc hda hdb hdc hab hbc
+
+theorem equal_refl (a : Bytes) (hva : Scanner.valid a = true) (ca : Cst) (hp : parseCst a = some ca)
+    (hda : ca.valueOf.noDup = true) : Impl.equal a a = true := by
+  unfold Impl.equal
+  simp [hva, hp, eqCC_refl ca hda]
+
+/-! ### the hypotheses are satisfiable: `{"a":1,"b":[null,"x"]}` against `{"b":[null,"x"],"a":1}` -/
+
+def exA : Cst := .obj [(ascii "a", .lit (ascii "1")), (ascii "b", .arr [.lit (ascii "null"), .str (ascii "x")])]
+def exB : Cst := .obj [(ascii "b", .arr [.lit (ascii "null"), .str (ascii "\\u0078")]), (ascii "a", .lit (ascii "1"))]
+def exN : Impl.Node := Impl.decodeDoc [(ascii "a", .lit (ascii "1")), (ascii "b", .arr [.lit (ascii "null"), .str (ascii "x")])]
+
+example : exA.valueOf.noDup = true ∧ exB.valueOf.noDup = true ∧ Impl.eqCC exA exB = true := by
+  decide +kernel
+example : Impl.WF exN = true ∧ exB.valueOf.noDup = true ∧ Impl.isNullN exN = false ∧
+    exB.isNullLit = false ∧ Impl.eqNC exN exB = true := by decide +kernel
+example : Scanner.valid (Cst.print exA) = (parseCst (Cst.print exA)).isSome := by decide +kernel
+example : Scanner.valid (Cst.print exB) = (parseCst (Cst.print exB)).isSome := by decide +kernel
+example : (parseValueOf (Cst.print exA)).map Value.noDup = some true := by decide +kernel
+example : Impl.equal (Cst.print exA) (Cst.print exB) = true := by decide +kernel
+example : (parseCst (ascii "{\"a\":")).isSome = false ∧ Impl.equal (ascii "{\"a\":") (ascii "1") = false := by
+  decide +kernel
+
+-- #print axioms eqCC_iff
+-- #print axioms eqNC_iff
+-- #print axioms equal_iff
+-- #print axioms malformed_false
+-- #print axioms equal_spec
+-- #print axioms equal_symm
+-- #print axioms equal_trans
+-- #print axioms equal_symm'
+-- #print axioms equal_trans'
+-- #print axioms equal_refl
 
 end C06
 end JP
